@@ -201,8 +201,12 @@ fn op(p: Profile, users: u8, chans: u8) -> BoxedStrategy<Op> {
             proptest::collection::vec(txref_p(p, chans), 0..3),
             0u8..4,
             proptest::collection::vec(txref_p(p, chans), 0..3),
-            // (crash profile only: the other profiles have a model of the node's mempool to keep in step)
-            if p == Profile::Crash { proptest::bool::weighted(0.4).boxed() } else { Just(false).boxed() },
+            // lossy: the node does not take the disconnected blocks' transactions back into its mempool
+            match p {
+                Profile::Crash => proptest::bool::weighted(0.4).boxed(),
+                Profile::Breach | Profile::Chain | Profile::Lifecycle => proptest::bool::weighted(0.15).boxed(),
+                _ => Just(false).boxed(),
+            },
         )
             .prop_map(|(depth, extra, first, later_at, later, evict)| Op::Reorg { depth, extra, first, later_at, later, evict })
     };
